@@ -272,6 +272,13 @@ from moptipyapps.binpacking2d.instance import Instance
 from moptipyapps.binpacking2d.instgen.instance_space import InstanceSpace
 
 
+#: verification hook: if the environment variable MOPTIPYAPPS_VERIF is "1",
+#: every cut performed by :meth:`InstanceDecoder.decode` is recorded here as
+#: `(phase, item_index, cut_dimension, cut_position)`; otherwise `None`.
+_VERIF_EVENTS: list[tuple[int, int, int, int]] | None = \
+    [] if __import__("os").environ.get("MOPTIPYAPPS_VERIF") == "1" else None
+
+
 class InstanceDecoder(Encoding):
     """Decode a string of `n` real values in `[0,1]` to an instance."""
 
@@ -433,6 +440,9 @@ class InstanceDecoder(Encoding):
                         cur_item[cut_dimension] = (
                             item_size_in_dim - cut_position)
                         items.append(cur_item)
+                        if _VERIF_EVENTS is not None:
+                            _VERIF_EVENTS.append(
+                                (1, sel_i, cut_dimension, cut_position))
                         break  # we cut one item and can stop
 
                 sel_i = ((((sel_i + sel_dir) % cur_n_items) + cur_n_items)
@@ -506,6 +516,9 @@ class InstanceDecoder(Encoding):
                         # the end.
                         cur_item[cut_dimension] = \
                             item_size_in_dim - cut_position
+                        if _VERIF_EVENTS is not None:
+                            _VERIF_EVENTS.append(
+                                (2, sel_i, cut_dimension, cut_position))
                         break  # we cut one item and can stop
 
                 sel_i = ((((sel_i + sel_dir) % cur_n_items) + cur_n_items)
